@@ -273,6 +273,7 @@ func run[K comparable](r *engine.Rec, c *cfg[K]) {
 		}
 		for _, p := range path[1:] {
 			apply(p, m, g)
+			rt.Protect(fuel, func() { m.AsArray(); m.GetKeys(); m.GetSize(); m.GetIterator() })
 		}
 		before := dump.Dump(m)
 		res, want, o := apply(op, m, g)
